@@ -85,13 +85,29 @@ def drivers(run, plan, opts, seed, tier):
             if pid == "C03":
                 run.violation(dict(sig, via="load_data"), what + " [inputs loaded with load_data]", rep)
     run.info["load_data_replays"] = n
-    res = O.pmap(O.check_behaviour, c14.driver_jobs())
+    res = O.pmap(O.check_behaviour, c14.driver_jobs() + requested_input_jobs())
     for fnds in res:
         for pid, sig, what, rep in fnds:
             if pid == "C03":
                 run.violation(sig, what, rep)
+            elif pid == "C14" and sig.get("clause") == "InputsPreserved":
+                # a supplied column that comes back changed was recomputed from the defaults instead of being loaded and frozen
+                run.violation({"clause": "InputsNotReplacedByDefaults", "via": "over_time"},
+                              what + " [the time-series driver must load and freeze every supplied column]", rep)
     run.info["over_time_driver_runs"] = len(res)
     run.traces += n + len(res)
+
+
+def requested_input_jobs():
+    """over_time asked for a built-in variable that the table already supplies: the column is an input and stays one."""
+    from .. import overtime_engine as O
+    jobs = []
+    for order in ([2, 1, 3], [1, 2, 3]):
+        cols = [{"kind": "in", "name": c, "of": "", "e": ""} for c in O.IN_SCALARS + O.IN_OTHERS] + [{"kind": "var", "name": "gammadet", "of": "", "e": ""}]
+        cols += [{"kind": "est", "name": c + "_max", "of": c, "e": "max"} for c in O.IN_SCALARS + ["gammadet"]]
+        jobs.append(({"hist": [{"op": "call", "vars": ["alpha", "gammadet"], "ests": ["max"]}], "init_order": order, "tkeys": ["it"], "cols": cols,
+                      "sorted": True, "admissible": True, "wantV": ["alpha", "gammadet"], "wantE": ["max"]}, {"clear_cache_every_nbr_calc": 2}))
+    return jobs
 
 
 def run(tier, seed):
@@ -99,7 +115,24 @@ def run(tier, seed):
     opts = {}
     graph = X.extract(opts)
     plan = CC.Plan()
-    specs = CC.run_models(run, graph, [dict(sp, properties=M.PROPERTIES + ["AbsSafety"]) for sp in specs_for(tier, seed, graph)], plan, opts)
+    sps = specs_for(tier, seed, graph)
+    # entries that some function body writes in place, and the writers: with freeze_data() allowed between the requests TLC finds a
+    # history in which the written entry is frozen first (FrozenNeverAltered); empty - and skipped - when nothing writes in place
+    mk = {}
+    for k, ns in graph["prog"].items():
+        m = set()
+        for nd in ns:
+            if nd["op"] == "end":
+                m |= set(nd.get("mutates", []))
+        if m:
+            mk[k] = m
+    mut = sorted((set(mk) | {x for v in mk.values() for x in v}) & set(graph["keys"] + graph["helpers"]))
+    if mut:
+        sps.append(dict(pres="tensors", nreq=2, ce=1000, requests=mut, allow_freeze=True, emit=False,
+                        invariants=["FrozenNeverAltered", "FrozenNeverEvicted", "AgeTableSubsetOfCache"],
+                        properties=["OnlyWholeUnfrozenEntries", "CountMonotone", "LoadKeepsFrozen"],
+                        label="real graph: in-place writers and what they write, 2 requests with freeze_data between, nothing evicted"))
+    specs = CC.run_models(run, graph, [dict(sp, properties=sp.get("properties", M.PROPERTIES + ["AbsSafety"])) for sp in sps], plan, opts)
     run.info["tlc_models"] = [{k: v for k, v in sp.items() if k != "requests"} for sp in specs]
     # vacuity: the actions the invariants talk about must have been taken in the exhaustive safety-layer run
     never = [a for a in ("Request", "RequestFunction", "Freeze", "Load", "StepRead", "StepTest", "Return") if run.coverage_actions.get(a, (0, 0))[1] == 0]
